@@ -4,6 +4,15 @@
  * vm_ffi_call (in-process path) and vm_ffi_cop_start (fork/exec) by the contracts below,
  * the OS (waitpid, close, kill, usleep) is an adversarial stub. */
 #define COP_VIEW_CALLER 1
+/* The request path mallocs COP_MAX_PAYLOAD (16 MiB) bytes when the 8 KiB stack buffer is too small (repo fix for C15.reqbuf);
+ * a replaced callee's frame over a CONSTANT 16 MiB object makes CBMC need > 18 GB and 20 min.  The caller-view obligations are
+ * therefore run with the protocol constant scaled down in this TU (code and contracts alike; the code is parametric in it:
+ * it only compares against it and passes it to malloc).  Stated drop: the value of one #define. */
+#include "nanovm/cop_protocol.h"
+#ifdef VERIF_COP_MAX_SCALED
+#undef COP_MAX_PAYLOAD
+#define COP_MAX_PAYLOAD VERIF_COP_MAX_SCALED
+#endif
 #include "cop_contracts.h"
 #include "libc_stubs.h"
 #include <sys/types.h>
@@ -152,7 +161,7 @@ void h_call(void)
     VERIF_COVER(ok && __verif_cop.started && __verif_cop.req_sent == 1);
 #ifdef COP_REPLY_ACCEPT
     VERIF_COVER(ok && !__verif_cop.inproc_called && __verif_cop_peer.len > 8192 && __verif_cop_peer.len <= 65536);
-    VERIF_COVER(ok && !__verif_cop.inproc_called && __verif_cop_peer.len > 1000000 && __verif_cop_peer.val_tag == TAG_STRING);
+    VERIF_COVER(ok && !__verif_cop.inproc_called && __verif_cop_peer.len > COP_MAX_PAYLOAD / 2 && __verif_cop_peer.val_tag == TAG_STRING);
     VERIF_COVER(ok && !__verif_cop.inproc_called && __verif_cop_peer.len == 0);
     VERIF_COVER(!ok && !__verif_cop.hdr_fail && !__verif_cop.req_fail && __verif_cop_peer.type == COP_MSG_FFI_RESULT && !__verif_cop_peer.deser_ok);
 #endif
